@@ -186,8 +186,10 @@ func cmdCheck(args []string) int {
 	if *only != "" {
 		var f2 []*ssa.Function
 		for _, f := range fns {
-			if f.Name() == *only {
-				f2 = append(f2, f)
+			for _, o := range strings.Split(*only, ",") {
+				if f.Name() == o {
+					f2 = append(f2, f)
+				}
 			}
 		}
 		fns = f2
